@@ -3,7 +3,7 @@
    decoders on that file (oracle tables) and the observed outcome and heap bytes allocated. *)
 From Coq Require Import List ZArith Bool String Ascii.
 Require Import MTX.Lib.IntWrap MTX.Model.C24_MulDiv.
-Require Export MTX.Model.C28_SegRead.
+Require Export MTX.Model.C28_SegRead MTX.Model.C28_Dir.
 Import ListNotations.
 Local Open Scope Z_scope.
 
@@ -44,7 +44,15 @@ Inductive case :=
 | CMux (flen : Z) (tracks : list track) (start_dts duration : Z) (events : list ev) (o : zobs)
        (calls : list mcall) (alloc : Z)
   (* the real parseSegment / seekAndMux with the real muxers on a file of flen bytes: only the outcome class *)
-| CReal (kind : Z) (flen : Z) (panicked : bool) (alloc : Z).
+| CReal (kind : Z) (flen : Z) (panicked : bool) (alloc : Z)
+  (* the real /list handler on a recording directory in which some files are unparsable. found = the outcome of the
+     real parseSegment on each file recordstore.FindSegments selected for this window, in its order ([] = it found
+     none); status = HTTP status (599 = the handler panicked), nentries = length of the JSON list of a 200 answer;
+     total_len = bytes of all files of the directory *)
+| CListDir (found : list (res pseg)) (start end_ : option Z) (status nentries : Z) (total_len alloc : Z)
+  (* the real /get handler on such a directory. found = the outcome of the real segmentFMP4ReadHeader on each
+     selected file (the outcome of muxing is not observed per file) *)
+| CGetDir (found : list (res pseg)) (status : Z) (total_len alloc : Z).
 
 (* ---- running the model ---- *)
 Fixpoint lookup {A} (t : tbl A) (a b : Z) (d : A) : A :=
@@ -96,6 +104,13 @@ Definition run_parts (data : bytes) (tracks : list track) (tfhd tfdt : tbl (opti
 
 Definition ts_ok (tracks : list track) : bool := forallb (fun t => negb (snd t =? 0)) tracks.
 
+(* durations read from damaged headers can be astronomically large; time.Time / time.Duration saturation is not
+   modelled, so the entry count is compared only when every duration is below 2^55 ns (about 1.1 years) *)
+Definition sane_durs (found : list (res pseg)) : bool :=
+  forallb (fun r => match r with
+                    | Ok p => (- 36028797018963968 <? p.(p_dur)) && (p.(p_dur) <? 36028797018963968)
+                    | _ => true end) found.
+
 Definition mismatch (c : case) : bool :=
   match c with
   | CHeader data mvhd init o alloc =>
@@ -115,6 +130,28 @@ Definition mismatch (c : case) : bool :=
             | _, _ => false
             end && (sum (snd r) <=? alloc) && ts_ok tracks)
   | CReal _ _ _ _ => false
+  | CListDir found st en status nentries _ _ =>
+      (* the answer does not depend on the completion order (C28_list_dir_answer): the identity order is run *)
+      negb (match on_list_dir KeepAny found (seq 0 (List.length found)) st en with
+            | Ok (L200 es) =>
+                if sane_durs found then (status =? 200) && (Z.of_nat (List.length es) =? nentries)
+                else (status =? 200) || (status =? 404)
+            | Ok L400 => status =? 400
+            | Ok L404 => if sane_durs found then status =? 404 else (status =? 200) || (status =? 404)
+            | Ok L500 => status =? 500
+            | Err => false
+            | Panic _ => status =? 599
+            end)
+  | CGetDir found status _ _ =>
+      (* the per-file outcome of muxing is not observed: every file is given a failing mux, which decides the class
+         only as far as the first header *)
+      negb (match on_get_dir (map (fun h => GF h Err) found) with
+            | Ok GNotFound => status =? 404
+            | Ok GBadFirst => status =? 400
+            | Ok _ => (status =? 200) || (status =? 400) || (status =? 404)
+            | Err => false
+            | Panic _ => status =? 599
+            end)
   end.
 
 (* ---- the property on the observed outputs only (no model function is called below) ---- *)
@@ -130,4 +167,6 @@ Definition spec_fail (c : case) : bool :=
   | CMux flen _ _ _ _ o _ alloc =>
       match o with ZPanic => true | _ => false end || (alloc_limit flen <? alloc)
   | CReal _ flen panicked alloc => panicked || (alloc_limit flen <? alloc)
+  | CListDir _ _ _ status _ total_len alloc => (status =? 599) || (alloc_limit total_len <? alloc)
+  | CGetDir _ status total_len alloc => (status =? 599) || (alloc_limit total_len <? alloc)
   end.
